@@ -71,6 +71,12 @@ impl Rng {
         v
     }
 
+    /// random bytes of a random length in lo..=hi
+    pub fn rbytes(&mut self, lo: usize, hi: usize) -> Vec<u8> {
+        let n = self.range(lo as u64, hi as u64) as usize;
+        self.bytes(n)
+    }
+
     pub fn fill(&mut self, buf: &mut [u8]) {
         for c in buf.chunks_mut(8) {
             let b = self.next_u64().to_le_bytes();
